@@ -1170,9 +1170,10 @@ def m_cstring_into_raw(ex, site, a):
 def m_cstring_from_raw(ex, site, a):
     p = a[0]
     if p is NULL or isinstance(p, NullPtr): raise Panic('null-deref', 'CString::from_raw(NULL)', ex.where())
+    v = ex.load(p)
     hook = ex.side.get('from_raw_hook')
     if hook is not None: hook(ex, p, 'CString')
-    return Agg('CString', 0, [ex.load(p)])
+    return Agg('CString', 0, [v])
 
 
 @model('CString::as_ptr', 'CStr::as_ptr')
